@@ -245,6 +245,13 @@ class _Flat:
                 return True
         return False
 
+    # ---- hooks for subclasses (harness/extract_c10.py): return True when the statement / call was consumed -----
+    def pre_stmt(self, cls, fn, st, env, guards, depth, stack, layerish):
+        return False
+
+    def pre_call(self, cls, fn, c, env, guards, depth, stack, layerish, in_comp):
+        return False
+
     # ---- statements --------------------------------------------------------------------------------------
     def emit(self, *ev):
         self.events.append(ev)
@@ -262,6 +269,8 @@ class _Flat:
         for st in stmts:
             if isinstance(st, ast.Expr) and isinstance(st.value, ast.Constant):
                 continue                                             # docstring
+            if self.pre_stmt(cls, fn, st, env, guards, depth, stack, layerish):
+                continue                                             # handled by a subclass (extract_c10)
             if isinstance(st, (ast.FunctionDef, ast.ClassDef, ast.Import, ast.ImportFrom, ast.Pass, ast.Assert,
                                ast.Global, ast.Nonlocal)):
                 continue
@@ -437,6 +446,8 @@ class _Flat:
             return
         name = f.attr
         recv_node = f.value
+        if self.pre_call(cls, fn, c, env, guards, depth, stack, layerish, in_comp):
+            return                                                   # handled by a subclass (extract_c10)
         # raw list mutations
         if isinstance(recv_node, ast.Attribute) and recv_node.attr == "_layers" and name in LISTMUT:
             self.emit("mut", _owner(_norm(_subst(recv_node.value, env))), "_layers." + name, guards)
